@@ -483,7 +483,7 @@ def run(prop, tier, seed, out=print):
                 % (st['distinct'], wsteps, len(wbad)))
             total += wsteps
             viols += wbad[:5]
-        nrep = 6 if tier == 'quick' else 60
+        nrep = 24 if tier == "quick" else 200
         bad_rep = []
         for k in range(nrep):
             r = replicated_run(seed * 1000 + k, 400 if tier == 'quick' else 800)
